@@ -413,3 +413,29 @@ def big_file(rng, n):
         else:
             lines.append("    // a comment line with info!(\"text\") in it")
     return ("fn big() {\n" + "\n".join(lines) + "\n}\n").encode()
+
+
+
+def feature_matrix():
+    """Deterministic coverage of the statement feature product (one statement per combination):
+    key-value list shape x target x macro path form x message kind.  Returns source text."""
+    kv_shapes = {
+        "none": [], "shorthand1": ["user"], "shorthand2": ["user", "attempts"], "shorthand_mod": ["user:%", "attempts:?"],
+        "valued1": ["k = 1"], "valued2": ["k = 1", 'name = "a;b"'], "mixed_sv": ["user", "k = 1"], "mixed_vs": ["k = 1", "user"],
+        "mod_valued": ["pt:? = pt", "code:% = 7"], "ident_value": ["k = user.id"],
+    }
+    lines = []
+    n = 0
+    for shape, kvs in kv_shapes.items():
+        for target in (None, "net"):
+            for qualified in (False, True):
+                for msg in ("plain", "value {}", "{{braces}}"):
+                    n += 1
+                    parts = []
+                    if target:
+                        parts.append('target: "%s",' % target)
+                    if kvs:
+                        parts.append(", ".join(kvs) + ";")
+                    parts.append('"%s %s %d"%s' % (msg, shape, n, ", x" if "{}" in msg else ""))
+                    lines.append("    %sinfo!(%s);" % ("log::" if qualified else "", " ".join(parts)))
+    return "fn matrix() {\n" + "\n".join(lines) + "\n}\n"
